@@ -393,6 +393,10 @@ class kFlowDecomp(pathmodel.AbstractPathModelDAG):
         start_time = time.perf_counter()
         (paths, weights) = self.G.decompose_using_max_bottleneck(self.flow_attr)
 
+        # An all-zero flow has no path of positive weight: nothing to return here, the model is solved by the solver
+        if len(paths) == 0:
+            return False
+
         # Check if the greedy decomposition satisfies the subpath constraints
         if self.subpath_constraints:
             for subpath in self.subpath_constraints:
